@@ -86,13 +86,26 @@ def main():
             version = 0
             proc = None
             out.write(json.dumps({"ev": "Reset"}) + "\n")
-            files = {}          # zone -> {"k": "valid"|"invalid"|"missing", "v": version}
+            files = {}          # zone -> {"k": "valid"|"invalid"|"missing", "v": version}: state of the zone's primary file
+            # every zone also has an immutable backup file, written first (so it is OLDER than anything written later);
+            # a step may point the zone's configuration entry at the backup and back ("restore from backup")
+            baks = {}
+            use_bak = {}
+            for i, z in enumerate(UNIVERSE):
+                write(os.path.join(d, z + "bak"), zone_text(z, 100 + i, "valid"))
+                baks[z] = {"k": "valid", "v": 100 + i}
+                use_bak[z] = False
             try:
                 for step in range(rnd.randrange(2, 7)):
                     version += 1
+
+                    def eff(z):      # the state of the file the configuration points at
+                        return baks[z] if use_bak[z] else files.get(z, {"k": "missing", "v": 0})
                     cfgzones = [z for z in UNIVERSE if rnd.random() < 0.6]
                     rnd.shuffle(cfgzones)          # the order of [[zones]] entries matters to the as-found code
                     for z in cfgzones:
+                        if rnd.random() < 0.2:
+                            use_bak[z] = not use_bak[z]
                         cur = files.get(z)
                         choice = rnd.choice(["valid", "valid", "invalid-syntax", "invalid-nons", "missing", "unchanged"])
                         if choice == "unchanged" and cur is not None:
@@ -109,7 +122,7 @@ def main():
                             files[z] = {"k": "valid", "v": version} if choice == "valid" else {"k": "invalid", "v": 0}
                     write(os.path.join(d, SENT + "zone"), zone_text(SENT, version, "valid"))
                     cfg = f'bind = "127.0.0.1:{port}"\n' + "".join(
-                        f'[[zones]]\nname = "{z}"\npath = "{z}zone"\n' for z in cfgzones + [SENT])
+                        f'[[zones]]\nname = "{z}"\npath = "{z}{"bak" if use_bak.get(z) else "zone"}"\n' for z in cfgzones + [SENT])
                     with open(os.path.join(d, "config.toml"), "w") as f:
                         f.write(cfg)
                     if proc is None:
@@ -133,8 +146,7 @@ def main():
                             q, resp = query(port, qn)
                             obs.append({"q": list(wire(qn)), "req": list(q), "resp": list(resp)})
                     out.write(json.dumps({"ev": "Step", "config": [{"z": z, "w": list(wire(z))} for z in cfgzones],
-                                          "files": [{"z": z, "w": list(wire(z)), "k": files.get(z, {"k": "missing", "v": 0})["k"],
-                                                     "v": files.get(z, {"k": "missing", "v": 0})["v"]} for z in cfgzones],
+                                          "files": [{"z": z, "w": list(wire(z)), "bak": use_bak[z], "k": eff(z)["k"], "v": eff(z)["v"]} for z in cfgzones],
                                           "live": live, "obs": obs}) + "\n")
             finally:
                 if proc is not None:
